@@ -86,6 +86,7 @@ def monitor(lines, impl, which):
     last_time = 0.0
     last_all = 0.0
     handler_time = None
+    prev_clock = 0.0
     timers = {}         # timer id -> (fire time, node, set time)
     dead_timers = set()
     counts = {}         # proc -> dict(s, r) since last start
@@ -146,6 +147,32 @@ def monitor(lines, impl, which):
             continue
         if t is None:
             continue
+        if which == "C06":
+            # the stepping functions process what they document and stop as soon as their condition holds
+            inv = [i for i, (kd, _) in enumerate(entries) if kd in ("MR", "TF")]     # handler invocations of this call
+            bound = {"step": 1, "steps": int(w[1]) if w[0] == "steps" and len(w) > 1 else None,
+                     "until_local_max": int(w[2]) if w[0] == "until_local_max" else None}.get(w[0])
+            if bound is not None and len(inv) > bound:
+                return f"`{op}` handled {len(inv)} events, more than the {bound} it may process"
+            if w[0] in ("until_local", "until_local_max"):
+                mine = [i for i, (kd, ff) in enumerate(entries) if kd == "LS" and ff[1].split("-")[1] == w[1]]
+                if ret == "Err" and mine:
+                    return (f"`{op}` returned Err although {w[1]} produced a local message during the call (it was left unread in the outbox: "
+                            f"the call did not check the outbox after its last step)")
+                if ret.startswith("Ok") and mine and any(i > mine[0] for i in inv):
+                    return f"`{op}` kept stepping after {w[1]} had produced a local message"
+            if w[0] == "for" and prev_clock is not None:
+                want = prev_clock + val(w[1])
+                if t != want:
+                    return f"`{op}` called at time {prev_clock} left the clock at {t}, documented: {want}"
+                late = [hexf(ff[0]) for kd, ff in entries if kd in ("MR", "TF") and hexf(ff[0]) > want]
+                if late:
+                    return f"`{op}` called at time {prev_clock} handled an event at time {late[0]}, after the end of the interval {want}"
+        prev_clock = t
+        if w[0] == "crash" and len(w) == 2 and ret == "ok":
+            # the call itself (not only its NodeCrashed entry) marks the crash: everything sent before it is lost
+            crashed[w[1]] = t
+            crash_epoch.setdefault(w[1], []).append((seq + 0.5, t))
         for kind, f in entries:
             et = hexf(f[0])
             seq += 1
